@@ -4,9 +4,11 @@
 # against it with VERIF_REPO, prints the exit code, removes the worktree and its build output.
 set -u
 patch="$1"; prop="$2"; tier="${3:-quick}"
+VERIF_DIR="$(cd "$(dirname "$0")/.." && pwd)"
+case "$patch" in revert:*) ;; /*) ;; *) patch="$(pwd)/$patch" ;; esac
 wt="$(mktemp -d /tmp/mutwt.XXXXXX)"; rmdir "$wt"
 git -C /repo worktree add --detach "$wt" HEAD -f >/dev/null 2>&1 || { echo "worktree failed"; exit 3; }
-cleanup() { git -C /repo worktree remove --force "$wt" >/dev/null 2>&1; rm -rf "$wt"; rm -f /verif/out/bin/verif-harness-$(printf %s "$wt" | sha1sum | cut -c1-8); }
+cleanup() { git -C /repo worktree remove --force "$wt" >/dev/null 2>&1; rm -rf "$wt"; rm -f "$VERIF_DIR"/out/bin/verif-harness-$(printf %s "$wt" | sha1sum | cut -c1-8); }
 trap cleanup EXIT
 case "$patch" in
   revert:*) git -C "$wt" revert --no-commit "${patch#revert:}" >/dev/null 2>&1 || { echo "revert failed"; exit 3; } ;;
@@ -16,5 +18,5 @@ if [ "${RUN_REPO_TESTS:-0}" = 1 ]; then
   (cd "$wt" && GOPROXY=off GOSUMDB=off GOTOOLCHAIN=local go test -vet=off -count=1 ./... >/tmp/mut_tests.$$ 2>&1) && echo "repo tests: PASS" || { echo "repo tests: FAIL"; tail -5 /tmp/mut_tests.$$; }
   rm -f /tmp/mut_tests.$$
 fi
-cd /verif && VERIF_REPO="$wt" VERIF_TIER="$tier" bin/check "$prop" 2>&1 | grep -v "^\[check\] stage" | tail -4
+cd "$VERIF_DIR" && VERIF_REPO="$wt" VERIF_TIER="$tier" bin/check "$prop" 2>&1 | grep -v "^\[check\] stage" | tail -4
 echo "exit=${PIPESTATUS[0]}"
